@@ -54,7 +54,19 @@ pub const B_TOKENS: &[&str] = &[
 ];
 
 pub fn space_b(max_tokens: usize, f: &mut dyn FnMut(u64, &[u8])) -> u64 {
-    fn rec(buf: &mut Vec<u8>, left: usize, depth: usize, idx: &mut u64, f: &mut dyn FnMut(u64, &[u8])) {
+    space_tokens(B_TOKENS, max_tokens, f)
+}
+
+/// B'(k): the same over a reduced token set, two tokens deeper (constants and clears around and
+/// inside loops: values created before a loop and used in it).
+pub const B2_TOKENS: &[&str] = &["+", "-", ">", "<", ".", "[-]", "[", "]"];
+
+pub fn space_b2(max_tokens: usize, f: &mut dyn FnMut(u64, &[u8])) -> u64 {
+    space_tokens(B2_TOKENS, max_tokens, f)
+}
+
+pub fn space_tokens(tokens: &[&str], max_tokens: usize, f: &mut dyn FnMut(u64, &[u8])) -> u64 {
+    fn rec(tokens: &[&str], buf: &mut Vec<u8>, left: usize, depth: usize, idx: &mut u64, f: &mut dyn FnMut(u64, &[u8])) {
         if left == 0 {
             if depth == 0 {
                 f(*idx, buf);
@@ -62,25 +74,25 @@ pub fn space_b(max_tokens: usize, f: &mut dyn FnMut(u64, &[u8])) -> u64 {
             }
             return;
         }
-        for t in B_TOKENS {
+        for t in tokens {
             let l = buf.len();
             match *t {
                 "[" => {
                     if depth + 1 <= left - 1 {
                         buf.extend_from_slice(t.as_bytes());
-                        rec(buf, left - 1, depth + 1, idx, f);
+                        rec(tokens, buf, left - 1, depth + 1, idx, f);
                     }
                 }
                 "]" => {
                     if depth > 0 {
                         buf.extend_from_slice(t.as_bytes());
-                        rec(buf, left - 1, depth - 1, idx, f);
+                        rec(tokens, buf, left - 1, depth - 1, idx, f);
                     }
                 }
                 _ => {
                     if depth <= left - 1 {
                         buf.extend_from_slice(t.as_bytes());
-                        rec(buf, left - 1, depth, idx, f);
+                        rec(tokens, buf, left - 1, depth, idx, f);
                     }
                 }
             }
@@ -90,7 +102,7 @@ pub fn space_b(max_tokens: usize, f: &mut dyn FnMut(u64, &[u8])) -> u64 {
     let mut idx = 0u64;
     let mut buf = Vec::new();
     for n in 0..=max_tokens {
-        rec(&mut buf, n, 0, &mut idx, f);
+        rec(tokens, &mut buf, n, 0, &mut idx, f);
     }
     idx
 }
@@ -391,7 +403,7 @@ pub fn space_s(k: usize, inner: usize, f: &mut dyn FnMut(u64, &[u8])) -> u64 {
 // that one loop iteration becomes a single simultaneous assignment with up to k+1 live values
 // (> 11 of them => stack temporaries in the JIT). Layout: c0 counter, c1 carrier, c2.. data.
 
-pub const W_FORMS: [&str; 8] = [
+pub const W_FORMS: [&str; 10] = [
     "[-<+>]",            // copy (default)
     "[-<++>]",           // x2
     "[-<+++>]",          // x3
@@ -400,6 +412,8 @@ pub const W_FORMS: [&str; 8] = [
     "[-<+<+>>]<+++++>",  // shared + constant
     "[-<+>]<+++++>",     // + constant
     "[---<+>]",          // divide by 3 (trip count through the 2-adic inverse: huge immediates at 64 bit)
+    "*",                 // product with the right neighbour (kept): d[j-1] += d[j]*d[j+1], via the scratch cell
+    "K",                 // copy, then add the constant 2*16^9 = 2^37 built by constant-foldable loops (wide immediate)
 ];
 
 pub const W_SCRIPTS: [&[u8]; 3] = [
@@ -422,9 +436,53 @@ pub fn w_program(k: usize, forms: &[usize]) -> Vec<u8> {
     }
     // loop
     p.extend_from_slice(b"[->>[-<+>]");
-    for f in forms.iter().take(k - 1) {
+    let scratch = (k + 2) as i32;
+    for (j, f) in forms.iter().take(k - 1).enumerate() {
         p.push(b'>');
-        p.extend_from_slice(W_FORMS[*f].as_bytes());
+        let a = (j + 3) as i32; // absolute position of the data cell being moved
+        match W_FORMS[*f] {
+            "*" => {
+                // multiplier: right neighbour, or the carrier for the last cell
+                let m = if j + 2 < k { a + 1 } else { 1 };
+                p.extend_from_slice(b"[-");
+                go(&mut p, a, m);
+                p.extend_from_slice(b"[-");
+                go(&mut p, m, a - 1);
+                p.push(b'+');
+                go(&mut p, a - 1, scratch);
+                p.push(b'+');
+                go(&mut p, scratch, m);
+                p.push(b']');
+                go(&mut p, m, scratch);
+                p.extend_from_slice(b"[-");
+                go(&mut p, scratch, m);
+                p.push(b'+');
+                go(&mut p, m, scratch);
+                p.push(b']');
+                go(&mut p, scratch, a);
+                p.push(b']');
+            }
+            "K" => {
+                p.extend_from_slice(b"[-<+>]");
+                go(&mut p, a, scratch);
+                p.extend_from_slice(b"++");
+                for r in 0..9 {
+                    if r % 2 == 0 {
+                        p.extend_from_slice(b"[>++++++++++++++++<-]>");
+                    } else {
+                        p.extend_from_slice(b"[<++++++++++++++++>-]<");
+                    }
+                }
+                // nine rounds end on scratch+1
+                p.extend_from_slice(b"[-");
+                go(&mut p, scratch + 1, a - 1);
+                p.push(b'+');
+                go(&mut p, a - 1, scratch + 1);
+                p.push(b']');
+                go(&mut p, scratch + 1, a);
+            }
+            other => p.extend_from_slice(other.as_bytes()),
+        }
     }
     // pointer is on data cell k-1 (absolute k+1); go back to the carrier (absolute 1)
     for _ in 0..k {
@@ -453,6 +511,20 @@ pub fn space_w_sized(ks: &[usize], max_dev: usize, f: &mut dyn FnMut(u64, &[u8])
         let mut forms = vec![0usize; n.max(1)];
         f(idx, &w_program(k, &forms));
         idx += 1;
+        // uniform and alternating assignments: every position deviates (shared sub-expressions
+        // plus constants on many live values at once)
+        for a in 1..W_FORMS.len() {
+            let u = vec![a; n.max(1)];
+            f(idx, &w_program(k, &u));
+            idx += 1;
+            for b in 0..W_FORMS.len() {
+                if b != a {
+                    let alt: Vec<usize> = (0..n.max(1)).map(|i| if i % 2 == 0 { a } else { b }).collect();
+                    f(idx, &w_program(k, &alt));
+                    idx += 1;
+                }
+            }
+        }
         if max_dev >= 1 {
             for i in 0..n {
                 for a in 1..W_FORMS.len() {
